@@ -48,9 +48,9 @@ import (
 
 	"github.com/grafana/carbon-relay-ng/aggregator"
 	"github.com/grafana/carbon-relay-ng/destination"
-	"github.com/grafana/carbon-relay-ng/route"
 	"github.com/grafana/carbon-relay-ng/input"
 	"github.com/grafana/carbon-relay-ng/matcher"
+	"github.com/grafana/carbon-relay-ng/route"
 
 	"verifharness/mon"
 	"verifharness/oracle"
